@@ -911,6 +911,29 @@ def _path_values_accepted(x, pc):
     return pat.match(rendered) is not None
 
 
+def _declared_reject(x, pc):
+    """does the configuration's OWN key_patterns (the module attribute, as written) rule out a value of x as it is
+    written on disk?  Read from the declaration, not from the loaded resolver."""
+    import re as _re
+    kp = getattr(pc, "key_patterns", None) or {}
+    data = dict(x.fields)
+    for k, val in list(data.items()):
+        m = pc.path_mapping.get(k) if isinstance(pc.path_mapping.get(k), dict) else None
+        if val and m:
+            data[k] = next((disk for disk, sidv in m.items() if sidv == val), val)
+    for k, w in data.items():
+        decl = [rep for sel, d in kp.items() if sel in x.type for src, rep in d.items()
+                if src.startswith("{%s}" % k) or src.startswith("{%s:" % k)]
+        alts = []
+        for rep in decl:
+            m2 = _re.match(r"^\{%s:\((.*)\)\}$" % _re.escape(k), rep)
+            if m2:
+                alts.append([a.replace("\\", "") for a in m2.group(1).split("|")])
+        if alts and all(w not in a for a in alts):
+            return True
+    return False
+
+
 def oracle_C05(inp):
     """Sid -> path -> Sid for a concrete typed Sid with values outside {'', '.'}"""
     from spil.sid.pathops.pathconfig import get_path_config
@@ -955,9 +978,10 @@ def oracle_C05(inp):
             continue
         acc = _path_values_accepted(x, pc)
         if p is None:
-            if acc is True:
-                out.append("%r.path(%r) is None although its type has a path template" % (x.uri, cfg))
-            continue      # (a value the path patterns of this configuration do not accept: no path, by design)
+            if acc is True or (acc is False and not _declared_reject(x, pc)):
+                out.append("%r.path(%r) is None although its type has a path template%s" % (
+                    x.uri, cfg, "" if acc else " and the key_patterns this configuration DECLARES accept its values"))
+            continue      # (a value the patterns this configuration declares do not accept: no path, by design)
         if acc is False:
             out.append("%r.path(%r) = %r although the path patterns of this configuration do not accept its values" % (x.uri, cfg, str(p)))
             continue
